@@ -23,6 +23,7 @@ InFile(I, f, K) == SortedSeq({d \in I.alive : I.G.defs[d].k \in K /\ I.G.defs[d]
 \* Repairs of the pinned algorithm that a tree under test may carry (the check probes the tree and sets this):
 \*   "localbase": markService also follows a base service of the same file
 \*   "extinc":    markService does not mark the include of a base service whose `extends` is being cleared
+\*   "traceprefix": traceExtendMethod refuses names that merely start with the pattern text, like markService
 CONSTANT Fixes
 
 \* the context of one run: program, arguments, patterns as the code reads them (an unqualified name gets the
@@ -42,6 +43,13 @@ MarkInc(st, f, g) == [st EXCEPT !.mi = @ \cup {<<f, g>>}]
 CheckPres(C, d) == /\ ~C.force
                    /\ \/ d \in Range(C.Ar.plist)
                       \/ (~C.Ar.nocomment /\ C.G.defs[d].pres = "c")
+
+\* how the code decides that pattern p selects function fn addressed as <service s>.<fn>:
+\* markService: regexp search, but a name that has the pattern text as a proper prefix is refused
+\*              (`funcName == method.String() || !strings.HasPrefix(funcName, method.String())`)
+\* traceExtendMethod: regexp search only
+CodeMatchSvc(p, s, fn) == Match(p, s, fn) \/ (p.q = "anysvc" /\ fn.pre # "" /\ p.f = fn.pre)
+CodeMatchTrace(p, s, fn) == IF "traceprefix" \in Fixes THEN CodeMatchSvc(p, s, fn) ELSE MatchMay(p, s, fn)
 
 RECURSIVE BType(_, _, _, _), BTypes(_, _, _, _, _), BSL(_, _, _), BTd(_, _, _)
 \* markType(theType, ast = file f)
@@ -106,7 +114,7 @@ BPreLoop(C, st, f, k, ret) ==
 RECURSIVE BTrace(_, _, _, _), BTraceFns(_, _, _, _, _, _)
 BTraceFns(C, st, fathers, s, i, ret) ==
   IF i > Len(C.G.defs[s].fns) THEN [st |-> st, ret |-> ret]
-  ELSE IF \E fa \in Range(fathers), p \in C.P : Match(p, fa, C.G.defs[s].fns[i])
+  ELSE IF \E fa \in Range(fathers), p \in C.P : CodeMatchTrace(p, fa, C.G.defs[s].fns[i])
        THEN BTraceFns(C, BFn(C, MarkDef(st, s), s, i), fathers, s, i + 1, TRUE)
        ELSE BTraceFns(C, st, fathers, s, i + 1, ret)
 BTrace(C, st, fathers, s) ==
@@ -127,7 +135,7 @@ RECURSIVE BSvc(_, _, _), BSvcFns(_, _, _, _)
 BSvcFns(C, st, s, i) ==
   IF i > Len(C.G.defs[s].fns) THEN st
   ELSE IF ~C.filt THEN BSvcFns(C, BFn(C, st, s, i), s, i + 1)
-       ELSE IF \E p \in C.P : Match(p, s, C.G.defs[s].fns[i])
+       ELSE IF \E p \in C.P : CodeMatchSvc(p, s, C.G.defs[s].fns[i])
             THEN BSvcFns(C, BFn(C, MarkDef(st, s), s, i), s, i + 1)
             ELSE BSvcFns(C, st, s, i + 1)
 BSvc(C, st, s) ==
